@@ -1,6 +1,9 @@
 package main
 
 import (
+	"go/token"
+	"strings"
+	"runtime/debug"
 	"flag"
 	"fmt"
 	"os"
@@ -70,7 +73,7 @@ func main() {
 	debugFacts(c)
 	debugGuards(c)
 	debugTrace(c)
-	info := pf(c)
+	info := runRules(c, pf)
 	if *dump {
 		for _, o := range c.Obls {
 			fmt.Printf("  [%s] %s @%s %s%s\n", o.Status, o.Key, o.Pos, o.How, o.What)
@@ -80,4 +83,35 @@ func main() {
 		os.Exit(replayObl(c, *replay, info))
 	}
 	os.Exit(c.finish(info))
+}
+
+// runRules evaluates the property's rules. A panic inside a rule means the code no longer has
+// the shape the rule's extraction expects: that is an undecided obligation, reported as a violation
+// (exit 1) with the place in the checker that gave up - never a silent pass, never a bare crash.
+func runRules(c *Ctx, pf func(*Ctx) propInfo) (info propInfo) {
+	defer func() {
+		if r := recover(); r != nil {
+			where := "?"
+			for _, ln := range strings.Split(string(debug.Stack()), "\n") {
+				ln = strings.TrimSpace(ln)
+				if strings.Contains(ln, "/checker/") && !strings.Contains(ln, "/checker/main.go") && strings.Contains(ln, ".go:") {
+					if i := strings.Index(ln, " "); i > 0 {
+						ln = ln[:i]
+					}
+					where = ln
+					break
+				}
+			}
+			c.bad("E0.undecided", fmt.Sprintf("rule evaluation gave up at %s", filepathBase(where)), token.NoPos, fmt.Sprintf("the analysis could not be completed (%v at %s): the analysed code no longer has the shape this rule extracts from, so its obligations are undecided - undecided fails", r, where))
+			info = propInfo{explanation: "incomplete run: a rule evaluation panicked; see the E0.undecided violation"}
+		}
+	}()
+	return pf(c)
+}
+
+func filepathBase(s string) string {
+	if i := strings.LastIndex(s, "/"); i >= 0 {
+		return s[i+1:]
+	}
+	return s
 }
